@@ -978,13 +978,8 @@ static int handleResponse(KSI_AsyncClient *c, void *resp,
 			goto cleanup;
 		}
 
-		res = resp_verifyWithRequest(resp, req);
-		if (res != KSI_OK) {
-			KSI_pushError(c->ctx, res, NULL);
-			goto cleanup;
-		}
-
-		/* Verify response status. */
+		/* Verify response status first: a service error concerns the request it was sent for only
+		 * (the comparison of the response with the request reports a non-zero status as a failure of its own). */
 		res = resp_getStatus(resp, &status);
 		if (res != KSI_OK) {
 			KSI_pushError(c->ctx, res, NULL);
@@ -1003,6 +998,12 @@ static int handleResponse(KSI_AsyncClient *c, void *resp,
 			handle->errExt = (long)KSI_Integer_getUInt64(status);
 			handle->errMsg = KSI_Utf8String_ref(errorMsg);
 		} else {
+			res = resp_verifyWithRequest(resp, req);
+			if (res != KSI_OK) {
+				KSI_pushError(c->ctx, res, NULL);
+				goto cleanup;
+			}
+
 			handle->respCtx = resp_ref(resp);
 			handle->respCtx_free = resp_free;
 
